@@ -476,6 +476,37 @@ func (tr *Tr) discharge(cfg *SolverCfg, workers int, keep func(o *Obligation) bo
 		}
 		todo = rest
 	}
+	// dead paths: an obligation whose path condition the assumptions refute is discharged
+	// vacuously; those are listed (a path may be legitimately dead under a precondition, or the
+	// model may be wrong about it)
+	if os.Getenv("GOVC_NODEAD") == "" {
+		var guards []string
+		seenG := map[string]bool{}
+		for _, o := range tr.obls {
+			if o.Cand != nil || (keep != nil && !keep(o)) || o.Guard == "true" || seenG[o.Guard] {
+				continue
+			}
+			seenG[o.Guard] = true
+			guards = append(guards, o.Guard)
+		}
+		as := make([]string, len(guards))
+		for i, g := range guards {
+			as[i] = tr.relevantAssumes(sl, g, true, nil) + fmt.Sprintf("(assert %s)\n", g)
+		}
+		dt := 700
+		br := solveBatch(decls, as, cfg, dt, "dead")
+		dead := map[string]bool{}
+		for i, g := range guards {
+			if br[i] == "unsat" {
+				dead[g] = true
+			}
+		}
+		for _, o := range tr.obls {
+			if dead[o.Guard] {
+				o.Dead = true
+			}
+		}
+	}
 	runPool(todo, workers, func(i int, o *Obligation) {
 		if o.Tree != nil {
 			if o.fullGoal == "" {
